@@ -308,7 +308,7 @@ theorem stmt_rt : ∀ s : Stmt, s.ok = true → StmtC s
       (by simp only [Expr.need]; omega)
     simp only [tk] at hexpr
     have hsteps := parse_print_steps st hst ({ kind := Kind.Assignment } :: (printExpr e ++ { kind := Kind.Semicolon } :: rest))
-      f' 127 (by simp only [Steps.need]; omega) (by omega) (by simp) (by simp)
+      f' 128 (by simp only [Steps.need]; omega) (by omega) (by simp) (by simp)
     cases d with
     | zero =>
       simp only [printStmt, amps, tk, tId, List.cons_append, List.append_assoc, List.nil_append]
